@@ -57,6 +57,7 @@ structure Triple (J : Type) where
   action : Bytes
   spec : Option Bytes
   data : Option J
+deriving DecidableEq
 
 /-- `x or None` for a string -/
 def orNone (b : Bytes) : Option Bytes := if b = [] then none else some b
